@@ -97,14 +97,14 @@ def coq_prepare():
     return True, ""
 
 
-def coq_make(targets, timeout=1500):
+def coq_make(targets, timeout=1500, keep_going=False):
     """make the given .vo targets (paths relative to coq/). Full .vo builds only."""
     os.makedirs(os.path.join(OCAML, "gen"), exist_ok=True)
     with Locked("coq"):
         ok, msg = coq_prepare()
         if not ok:
             return False, msg
-        rc, out = sh(["make", "-j%d" % NCPU] + list(targets), cwd=COQ, timeout=timeout)
+        rc, out = sh(["make", "-j%d" % NCPU] + (["-k"] if keep_going else []) + list(targets), cwd=COQ, timeout=timeout)
         return rc == 0, out
 
 
